@@ -684,6 +684,13 @@ def main(argv=None):
     results = []
     print("[%s] tier=%s seed=%d obligations=%d jobs=%d repo=%s" % (pid, tier, seed, len(idx), jobs,
                                                                    os.environ.get("MOCLO_REPO", "/repo")), flush=True)
+    # differential validation of the library models, in a child process (keeps the parent free of z3 state)
+    with ctx.Pool(1) as vp_:
+        try:
+            validation = vp_.apply(_validate, (seed, getattr(hm, "VALIDATE", ("re", "catalyse", "records"))))
+        except Exception as e:
+            validation = dict(report={}, bad=[dict(error="%s: %s" % (type(e).__name__, e))])
+    print("  model validation: %s" % json.dumps(validation["report"]), flush=True)
     with ctx.Pool(jobs, maxtasksperchild=1) as pool:
         for r in pool.imap_unordered(_worker, [(pid, tier, seed, i, budget) for i in idx]):
             results.append(r)
@@ -695,12 +702,29 @@ def main(argv=None):
             print("  - %-58s %-14s paths=%-5d q=%-6d solver=%.1fs wall=%.1fs" % (
                 (r.get("name") or "?")[:58], tag, r["paths"], r["queries"], r["solver_s"], r["wall_s"]), flush=True)
     results.sort(key=lambda r: r["index"])
-    return finish(pid, tier, seed, hm, obs, results, time.time() - t0, write=not a.no_evidence)
+    return finish(pid, tier, seed, hm, obs, results, time.time() - t0, write=not a.no_evidence, validation=validation)
 
 
-def finish(pid, tier, seed, hm, obs, results, wall, write=True):
+def _validate(seed, which):
+    import warnings
+
+    warnings.filterwarnings("ignore")
+    from . import validate
+
+    shapes = ()
+    try:
+        from harness.c16 import SHAPES as shapes
+    except Exception:
+        pass
+    report, bad = validate.run_all(seed, which=which, shapes=shapes)
+    return dict(report=report, bad=bad[:4])
+
+
+def finish(pid, tier, seed, hm, obs, results, wall, write=True, validation=None):
     known = load_known(pid)
     harness_errors = []
+    for b in (validation or {}).get("bad", []):
+        harness_errors.append("library model disagrees with the real library: %s" % json.dumps(b, default=str)[:800])
     violations = []
     known_hits = {}
     inconclusive = []
@@ -783,7 +807,7 @@ def finish(pid, tier, seed, hm, obs, results, wall, write=True):
 
     if write:
         write_evidence(pid, tier, seed, hm, obs, results, wall, discharged, inconclusive,
-                       harness_errors, new_violations, known_hits)
+                       harness_errors, new_violations, known_hits, validation)
     for m in inconclusive:
         print("INCONCLUSIVE: %s" % m)
     for m in harness_errors:
@@ -801,14 +825,14 @@ def finish(pid, tier, seed, hm, obs, results, wall, write=True):
 
 
 def write_evidence(pid, tier, seed, hm, obs, results, wall, discharged, inconclusive, harness_errors,
-                   new_violations, known_hits):
+                   new_violations, known_hits, validation=None):
     funcs = {}
     for r in results:
         for k, (hit, tot) in r.get("funcs", {}).items():
             cur = funcs.get(k, [0, 0])
             funcs[k] = [max(cur[0], hit), max(cur[1], tot)]
     samples = []
-    for r in results:
+    for r in sorted(results, key=lambda r: -r.get("paths", 0)):
         for s in r.get("samples", [])[:1]:
             samples.append(dict(obligation=r["name"], **s))
         if len(samples) >= 6:
@@ -837,7 +861,9 @@ def write_evidence(pid, tier, seed, hm, obs, results, wall, discharged, inconclu
             sum(r["asserted_paths"] for r in results), sum(1 for r in results if r["asserted_paths"] > 0)),
         witnesses=sorted({w for r in results for w in r.get("witnesses", [])}),
         concrete_witnesses=sorted({w for r in results for w in r.get("concrete_witnesses", [])}),
-        traces_validated_against_impl=sum(r["validated"] for r in results),
+        traces_validated_against_impl=sum(r["validated"] for r in results) + sum(
+            v.get("cases", 0) for v in ((validation or {}).get("report") or {}).values()),
+        model_validation=(validation or {}).get("report"),
         functions_encoded={k: "%d/%d lines" % (v[0], v[1]) for k, v in sorted(funcs.items())},
         bounds=getattr(hm, "bounds", lambda t: {})(tier),
         per_obligation=[dict(name=r.get("name"), status=r["status"], paths=r["paths"], queries=r["queries"],
